@@ -32,9 +32,13 @@ def gen_value(rng, classes):
         c = rng.choice(sorted(STR_ODD))
         classes.add("string:" + c)
         return STR_ODD[c]
-    if r < 0.7:
+    if r < 0.66:
         classes.add("int")
-        return rng.choice([0, 1, 50, 500, -3])
+        return rng.choice([0, 1, 50, 500, -3, 9007199254740993, -9223372036854775808])
+    if r < 0.73:
+        c = rng.choice(["fraction", "integral", "exponent"])
+        classes.add("float:" + c)
+        return rng.choice({"fraction": [0.5, 2.5, -0.125], "integral": [75.0, 100.0, -1.0, 0.0], "exponent": [1e16, 1.5e-7, 1e300]}[c])
     if r < 0.8:
         classes.add("bool")
         return rng.choice([True, False])
